@@ -78,12 +78,11 @@ RULE = ("case = (state kind pos/cplx/dens, n<=5, h, [a], parameter scale in {0.3
         "sample (B reals; container / precision not constrained), batch bytes unchanged - property level; refused types and the uint8 batch of SigmaX / SigmaY "
         "(observation proposed/O_C08_uint8_flip) are informational counters")
 
-# forms of the interaction distance `c` the CLEAN code handles (probed: keyword, positional, reassigned attribute; c = 0..n+2, both boundary
-# conditions): everything in qc.INT_FORMS except numpy UNSIGNED scalars.  `NeighbourInteraction(c=np.uint8(k))`: the open chain computes
-# `samples[:, : -self.c]` with -uint8(k) = 256 - k (all columns) and the periodic chain indexes with a list of np.uint8, which torch reads as a
-# byte MASK: RuntimeError for most (L, c), but a silently WRONG value when the shapes happen to broadcast (open: c = L - 1; periodic: L <= 2).
-# Recorded as finding candidate proposed/F_C08_unsigned_c.{md,diff}; add "np.uint8" here once `c = int(self.c)` is in apply.
-C_FORMS = tuple(f for f in qc.INT_FORMS if f != "np.uint8")
+# forms of the interaction distance `c`: every form of qc.INT_FORMS.  Until fix F23 (/repo 6ffb751, `c = int(self.c)`) numpy UNSIGNED scalars
+# were left out: `NeighbourInteraction(c=np.uint8(k))` computed `samples[:, : -self.c]` with -uint8(k) = 256 - k (all columns) in the open chain
+# and indexed with a list of np.uint8, which torch reads as a byte MASK, in the periodic chain - a silently WRONG value when the shapes happened
+# to broadcast (open: c = L - 1; periodic: L <= 2).  proposed/F_C08_unsigned_c.md has the reproducer; seeded/F23_revert is the regression mutant.
+C_FORMS = tuple(qc.INT_FORMS)   # np.uint8 included since /repo 6ffb751 (F23: `c = int(self.c)`); before it, -c wrapped around
 Z_FORMS = ("tensor", "float", "np.float64")
 
 I2 = np.eye(2, dtype=complex)
